@@ -192,6 +192,24 @@ class IbanTask(T.Task):
         return False, c, f"Accept={acc} (outcome not admitted)"
 
     def sample(self, rnd):
+        # histories: now and then return a single-character variant of the last VALID sample (same process, so a
+        # result that depends on an earlier call - memo tables, caches - is exercised by the bounded cross-check)
+        last = getattr(self, "_last_valid", None)
+        if last and rnd.random() < 0.3:
+            i = rnd.randrange(2, len(last))
+            alpha = "0123456789" if last[i].isdigit() else "ABCDEFGHIJKLMNOPQRSTUVWXYZ"
+            v = last[:i] + rnd.choice([c for c in alpha if c != last[i]]) + last[i + 1:]
+            return {"p": v, "validate_bban": False}
+        s = self._sample(rnd)
+        if self.cc and len(s["p"]) == self.L + 4 and not s["validate_bban"]:
+            try:
+                if S.accept_k(s["p"], self.cc, self.cls):
+                    self._last_valid = s["p"]
+            except Exception:  # noqa: BLE001
+                pass
+        return s
+
+    def _sample(self, rnd):
         tab = table()
         cc = self.cc or rnd.choice(["XX", "ZZ", "A1", "1A", "D", "", "Q", "AA", "É9", "YY", "0", "D-"])
         if self.cc:
